@@ -287,6 +287,89 @@ pub fn main(args: &[String]) -> i32 {
                 out.emit(&ev);
             }
         }
+        // node level, commands that name several keys (MSET, DEL, MGET, EXISTS) and DBSIZE: accepted at A, shipped to B,
+        // read back on both nodes key by key and through the multi-key reads
+        Some("multikey") => {
+            use redis_sim::production::ReplicatedShardedState;
+            use redis_sim::replication::ReplicationConfig;
+            let rt = tokio::runtime::Builder::new_current_thread().enable_all().build().unwrap();
+            let mut rng = rng(a.u64("seed", 1));
+            let show = |r: &RespValue| -> Value {
+                match r {
+                    RespValue::BulkString(Some(b)) => json!(String::from_utf8_lossy(b).to_string()),
+                    RespValue::BulkString(None) => json!("<nil>"),
+                    RespValue::Integer(n) => json!(n),
+                    RespValue::SimpleString(x) => json!(format!("+{}", x)),
+                    RespValue::Array(Some(a)) => json!(a.iter().map(|x| match x { RespValue::BulkString(Some(b)) => String::from_utf8_lossy(b).to_string(), RespValue::BulkString(None) => "<nil>".to_string(), o => format!("{o:?}") }).collect::<Vec<_>>()),
+                    o => json!(format!("{o:?}")),
+                }
+            };
+            for run in 1..=a.usize("n", 40) {
+                let nk = rng.gen_range(2..=6usize);
+                let keys: Vec<String> = (0..nk).map(|i| format!("mk{}:{}", run, i)).collect();
+                // script: abstract ops over key indices 1..nk
+                let mut script: Vec<Value> = Vec::new();
+                let first: Vec<usize> = (1..=nk).collect();
+                script.push(json!({"op": "mset", "ks": first, "vs": (1..=nk).map(|i| format!("v{i}")).collect::<Vec<_>>()}));
+                for _ in 0..rng.gen_range(0..4) {
+                    match rng.gen_range(0..4) {
+                        0 => script.push(json!({"op": "set", "ks": [rng.gen_range(1..=nk)], "vs": ["single"]})),
+                        1 | 2 => {
+                            let ks: Vec<usize> = (1..=nk).filter(|_| rng.gen_bool(0.5)).collect();
+                            if !ks.is_empty() {
+                                script.push(json!({"op": "del", "ks": ks, "vs": []}));
+                            }
+                        }
+                        _ => {
+                            let ks: Vec<usize> = (1..=nk).filter(|_| rng.gen_bool(0.4)).collect();
+                            if !ks.is_empty() {
+                                let vs: Vec<String> = ks.iter().map(|k| format!("again{k}")).collect();
+                                script.push(json!({"op": "mset", "ks": ks, "vs": vs}));
+                            }
+                        }
+                    }
+                }
+                let ev = rt.block_on(async {
+                    let na = ReplicatedShardedState::new(ReplicationConfig { replica_id: 1, ..Default::default() });
+                    let nb = ReplicatedShardedState::new(ReplicationConfig { replica_id: 2, ..Default::default() });
+                    let mut replies = Vec::new();
+                    for c in &script {
+                        let ks: Vec<usize> = c["ks"].as_array().unwrap().iter().map(|k| k.as_u64().unwrap() as usize).collect();
+                        let vs: Vec<String> = c["vs"].as_array().unwrap().iter().map(|v| v.as_str().unwrap().to_string()).collect();
+                        let mut argv: Vec<String> = Vec::new();
+                        match c["op"].as_str().unwrap() {
+                            "mset" => { argv.push("MSET".into()); for (k, v) in ks.iter().zip(vs.iter()) { argv.push(keys[k - 1].clone()); argv.push(v.clone()); } }
+                            "set" => { argv = vec!["SET".into(), keys[ks[0] - 1].clone(), vs[0].clone()]; }
+                            _ => { argv.push("DEL".into()); for k in &ks { argv.push(keys[k - 1].clone()); } }
+                        }
+                        let av: Vec<&str> = argv.iter().map(|x| x.as_str()).collect();
+                        replies.push(show(&na.execute(argv_cmd(&av)).await));
+                        let ds: Vec<ReplicationDelta> = na.collect_pending_deltas().await;
+                        nb.apply_remote_deltas(ds);
+                    }
+                    let mut view = Vec::new();
+                    for n in [&na, &nb] {
+                        let mut gets = Vec::new();
+                        for k in &keys {
+                            gets.push(show(&n.execute(argv_cmd(&["GET", k])).await));
+                        }
+                        let mut mg = vec!["MGET"];
+                        mg.extend(keys.iter().map(|k| k.as_str()));
+                        let mget = show(&n.execute(argv_cmd(&mg)).await);
+                        let mut ex = vec!["EXISTS"];
+                        ex.extend(keys.iter().map(|k| k.as_str()));
+                        let exists = show(&n.execute(argv_cmd(&ex)).await);
+                        let dbsize = show(&n.execute(argv_cmd(&["DBSIZE"])).await);
+                        view.push(json!({"gets": gets, "mget": mget, "exists": exists, "dbsize": dbsize}));
+                    }
+                    json!({"a": "multikey", "nk": nk, "script": script, "replies": replies, "views": view})
+                });
+                out.emit(&json!({"a": "reset", "run": run, "n": 2}));
+                let mut ev = ev;
+                ev["run"] = json!(run);
+                out.emit(&ev);
+            }
+        }
         Some("record") => {
             let mut rng = rng(a.u64("seed", 1));
             let reg = ["set", "setnx", "setxx", "getset", "del", "incr", "append"];
